@@ -290,6 +290,59 @@ type deferred struct {
 	call  *ssa.CallCommon
 	block *ssa.BasicBlock
 	pos   token.Pos
+	cond  string // reachability of the defer statement
+}
+
+// mergeStates joins the heap states of alternative paths (conds[i] holds on the path that ends in states[i]).
+func (tr *Translator) mergeStates(conds []string, states []*State) *State {
+	u := tr.u
+	st := &State{M: map[string]string{}}
+	st.Epoch = states[0].Epoch
+	for _, s := range states[1:] {
+		if s.Epoch != st.Epoch {
+			tr.epoch++
+			st.Epoch = tr.epoch
+			var edges []epochEdge
+			for i, s2 := range states {
+				edges = append(edges, epochEdge{conds[i], s2.Epoch})
+			}
+			u.epochs[tr.epoch] = epochRel{merge: edges}
+			break
+		}
+	}
+	keys := map[string]bool{}
+	for _, s := range states {
+		for k := range s.M {
+			keys[k] = true
+		}
+	}
+	var ks []string
+	for k := range keys {
+		ks = append(ks, k)
+	}
+	sort.Strings(ks)
+	for _, k := range ks {
+		if _, ok := u.compSort[k]; !ok {
+			continue
+		}
+		first := states[0].get(u, k)
+		same := true
+		for _, s := range states[1:] {
+			if s.get(u, k) != first {
+				same = false
+			}
+		}
+		if same {
+			st.M[k] = first
+			continue
+		}
+		n := u.freshConst(k, u.compSort[k])
+		for i, s := range states {
+			tr.fact(implies(conds[i], eq(n, s.get(u, k))))
+		}
+		st.M[k] = n
+	}
+	return st
 }
 
 type fctx struct {
